@@ -19,6 +19,23 @@ REPO = os.environ.get("PYVC_REPO", "/repo")
 VENV_PY = "/venv/bin/python"
 
 
+def jsonable(x, depth=0):
+    """models may contain dicts with non-string keys, bytes, sets ...: make them JSON-safe"""
+    if depth > 12:
+        return repr(x)
+    if isinstance(x, dict):
+        return {(k if isinstance(k, str) else repr(k)): jsonable(v, depth + 1) for k, v in x.items()}
+    if isinstance(x, (list, tuple, set, frozenset)):
+        return [jsonable(v, depth + 1) for v in x]
+    if isinstance(x, (bytes, bytearray)):
+        return "bytes:" + bytes(x).hex()
+    if isinstance(x, float) and x != x:
+        return "nan"
+    if isinstance(x, (str, int, float, bool)) or x is None:
+        return x
+    return repr(x)
+
+
 def load_props():
     path = os.path.join(VERIF, "contracts", "_properties.py")
     ns = {}
@@ -299,7 +316,7 @@ def _main(a, t0):
                   open(ledger_path, "w"), indent=0, sort_keys=True)
         ledger = json.load(open(ledger_path))
     fail_closed = []
-    if n_ob == 0 and (cfg["functions"] or cfg.get("provenance")):
+    if n_ob == 0 and (cfg["functions"] or cfg.get("provenance")) and not unsupported:
         fail_closed.append("zero obligations generated")
     if not cfg["functions"] and not cfg.get("provenance") and not bproc:
         fail_closed.append("nothing to run for this property")
@@ -340,17 +357,20 @@ def _main(a, t0):
                 fh.write(f.get("replay") or "")
             violations.append((rp, f"bounded clause {f['clause']}: {f['what'][:200]}", True))
     concrete = bool(violations)
+    bounded_replays = [v[0] for v in violations]
     for o in failing:
         in_ledger = bool(ledger and ledger["obligations"].get(o["name"]) == "discharged")
         rp = os.path.join(VERIF, "replays", prop, re.sub(r"[^A-Za-z0-9_.@\[\]-]", "_", o["name"]) + ".json")
-        json.dump({"property": prop, "obligation": o, "note": "verifier output for an obligation that is not discharged; "
-                   "replay of the model on the real code is done by the bounded stand-in of the property"},
+        json.dump(jsonable({"property": prop, "obligation": o,
+                   "failing_input_replays": bounded_replays, "note": "verifier output for an obligation that is not discharged; "
+                   "replay of the model on the real code is done by the bounded stand-in of the property"}),
                   open(rp, "w"), indent=1, default=repr)
-        if concrete:
-            continue      # already reported with a concrete failing input
         if in_ledger or o["verdict"] == "refuted":
-            violations.append((rp, f"obligation {o['name']} {o['verdict']} (discharged on the baseline tree)"
-                               if in_ledger else f"obligation {o['name']} refuted", False))
+            # the named obligation is the violation; when the bounded stand-in of the property also
+            # found an input that fails on the real code, that input is the replayed counterexample
+            violations.append((rp, (f"obligation {o['name']} {o['verdict']} (discharged on the baseline tree)"
+                               if in_ledger else f"obligation {o['name']} refuted")
+                               + (f"; failing input on the real code: {bounded_replays[0]}" if concrete else ""), concrete))
         else:
             undecided.append(o["name"])
     for k, why in unsupported:
@@ -411,7 +431,7 @@ def _main(a, t0):
     }
     if bounded:
         ev["coverage"]["samples"] += bounded.get("samples", [])[:4]
-    json.dump(ev, open(os.path.join(VERIF, "evidence", f"{prop}.json"), "w"), indent=1, default=repr)
+    json.dump(jsonable(ev), open(os.path.join(VERIF, "evidence", f"{prop}.json"), "w"), indent=1, default=repr)
     # ---------------------------------------------------------------- report
     print(f"[{prop}] contracts {len(functions)} obligations {n_ob} discharged {len(discharged)} "
           f"bounded {bounded['evaluations'] if bounded else 0} cases wall {ev['wall_s']}s")
